@@ -26,23 +26,37 @@ Definition vec := list Q.
 (* vector arithmetic                                                                           *)
 (* ------------------------------------------------------------------------------------------ *)
 
-(* `Qred` (reduction to lowest terms, value-preserving: Qred q == q) only keeps the numerals small
-   when the correspondence check evaluates these sums with vm_compute. *)
+(* `qnorm` cancels common factors of two (value-preserving: qnorm q == q, Proofs/QCacheProofs.v).
+   It only keeps the numerals small when the correspondence check evaluates these sums with
+   vm_compute: every f32 is a dyadic rational, so this fully reduces the sums in linear time. *)
+Fixpoint pstrip (a b : positive) : positive * positive :=
+  match a, b with
+  | xO a', xO b' => pstrip a' b'
+  | _, _ => (a, b)
+  end.
+
+Definition qnorm (q : Q) : Q :=
+  match Qnum q with
+  | Z0 => 0
+  | Zpos a => let '(a', b') := pstrip a (Qden q) in Zpos a' # b'
+  | Zneg a => let '(a', b') := pstrip a (Qden q) in Zneg a' # b'
+  end.
+
 Fixpoint dot (a b : vec) : Q :=
   match a, b with
-  | x :: a', y :: b' => Qred (x * y + dot a' b')
+  | x :: a', y :: b' => qnorm (x * y + dot a' b')
   | _, _ => 0
   end.
 
 Fixpoint sumsq (a : vec) : Q :=
   match a with
-  | x :: a' => Qred (x * x + sumsq a')
+  | x :: a' => qnorm (x * x + sumsq a')
   | [] => 0
   end.
 
 Fixpoint l2sq (a b : vec) : Q :=
   match a, b with
-  | x :: a', y :: b' => Qred ((x - y) * (x - y) + l2sq a' b')
+  | x :: a', y :: b' => qnorm ((x - y) * (x - y) + l2sq a' b')
   | _, _ => 0
   end.
 
